@@ -155,6 +155,7 @@ package measure
 //@ func snapshot.decRef
 //@   mode int
 //@   opt wrap int32
+//@   at-call atomic.LoadInt32 requires decrement-and-test-are-one-atomic-step: false
 //@   requires s != nil && partsOK(s) && s.ref > -2147483648
 //@   modifies s.ref
 //@   modifies s.parts
@@ -249,6 +250,7 @@ package measure
 //@   modifies allof(partWrapper.ref)
 //@   modifies fileSnapshotRemoved
 //@   modifies tableReadLocked
+//@   at-stmt "continue" requires only-in-memory-parts-are-skipped: pw.mp != nil
 //@   at-call CreateHardLink requires pinned-while-linking: tst.snapshot != nil && tst.snapshot.ref == old(tst.snapshot.ref) + 1
 //@   at-call createMetadata requires manifest-of-the-pinned-snapshot: arg1 == tst.snapshot && tst.snapshot.ref == old(tst.snapshot.ref) + 1
 //@   ensures  none: tst.snapshot == nil ==> !result0 && result1 != nil
